@@ -3,6 +3,7 @@ import ast as _ast
 import schedula as sh
 from pyvc.contract import Contract, FnT, OpaqueT, OneOf, ConstT, ObjT, TupleT
 from pyvc.spec import n_calls, returned_by, raised_by
+import itertools
 from formulas.tokens.operand import NAME, REF
 from formulas import errors as _E
 
@@ -340,13 +341,91 @@ def _names(mask):
     return [FAULTS[k][0] for k in range(len(FAULTS)) if mask >> k & 1]
 
 
+# ------------------------------------------------------------------------------------ bounded: numbered links ([n]Sheet!A1)
+# A workbook whose link table (as Excel numbers it) mixes readable .xlsx workbooks, absent .xlsx workbooks and workbooks of other
+# formats: the index n denotes the n-th entry of the table whatever the other entries are.
+_LINK_TARGETS = {'ok': 'data.xlsx', 'absent': 'gone.xlsx', 'xls': 'legacy.xls', 'xlsm': 'macro.xlsm'}
+
+
+def _link_cases(tier, rng):
+    kinds = list(_LINK_TARGETS)
+    out = []
+    for n in (1, 2, 3):
+        for combo in itertools.product(kinds, repeat=n):
+            if combo.count('ok') <= 1 and combo.count('absent') <= 1 and combo.count('xls') <= 1 and combo.count('xlsm') <= 1:
+                out.append(('links', combo))
+    return out
+
+
+def _check_links(case):
+    import logging
+    import os
+    import shutil
+    import tempfile
+    import numpy as np
+    import openpyxl
+    import formulas
+    from openpyxl.packaging.relationship import Relationship
+    from openpyxl.workbook.external_link.external import ExternalLink, ExternalBook, ExternalSheetNames
+    from formulas.tokens.operand import XlError
+    _, combo = case
+    logging.disable(logging.CRITICAL)
+    d = tempfile.mkdtemp(prefix='verif_c14l_')
+    try:
+        data = openpyxl.Workbook()
+        data.active.title = 'S'
+        data.active['A1'], data.active['A2'] = 42, 8
+        data.save(os.path.join(d, 'data.xlsx'))
+        wb = openpyxl.Workbook()
+        ws = wb.active
+        ws.title = 'S'
+        ws['A1'], ws['A2'], ws['A3'] = 7, 3, '=A1+A2'
+        for i, kind in enumerate(combo):
+            ws['F%d' % (i + 1)] = '=[%d]S!A1' % (i + 1)
+            ws['G%d' % (i + 1)] = '=IFERROR([%d]S!A1,"gone")' % (i + 1)
+            ws['H%d' % (i + 1)] = '=SUM([%d]S!A1:A2)' % (i + 1)
+            el = ExternalLink(externalBook=ExternalBook(sheetNames=ExternalSheetNames(sheetName=['S'])))
+            el.file_link = Relationship(type='externalLinkPath', Target=_LINK_TARGETS[kind], TargetMode='External')
+            wb._external_links.append(el)
+        path = os.path.join(d, 'main.xlsx')
+        wb.save(path)
+        try:
+            sol = formulas.ExcelModel().loads(path).finish().calculate()
+        except Exception as ex:
+            return 'links %r: loading / calculation raised %s: %s' % (combo, type(ex).__name__, str(ex)[:100])
+
+        def val(ref):
+            k = "'[main.xlsx]S'!%s" % ref
+            v = sol.get(k)
+            return np.asarray(v.value, object).ravel()[0] if v is not None else None
+        if val('A3') != 10:
+            return 'links %r: the healthy cell A3 = A1+A2 shows %r' % (combo, val('A3'))
+        for i, kind in enumerate(combo):
+            f, g, h = val('F%d' % (i + 1)), val('G%d' % (i + 1)), val('H%d' % (i + 1))
+            if kind == 'ok':
+                if isinstance(f, XlError) or f != 42 or g != 42 or h != 50:
+                    return 'links %r: [%d] is the readable workbook, but [%d]S!A1 = %r, IFERROR = %r, SUM = %r (42, 42, 50)' % (combo, i + 1, i + 1, f, g, h)
+            else:
+                if not (isinstance(f, XlError) and str(f) in ('#REF!', '#NAME?')) or g != 'gone' or not isinstance(h, XlError):
+                    return 'links %r: [%d] is %s, but [%d]S!A1 = %r, IFERROR = %r, SUM = %r (expected #REF!, "gone", an error)' % (
+                        combo, i + 1, _LINK_TARGETS[kind], i + 1, f, g, h)
+        return None
+    finally:
+        logging.disable(logging.NOTSET)
+        shutil.rmtree(d, ignore_errors=True)
+
+
 BOUNDED = [
+    Stage('B3:numbered-links-denote-the-entries-of-the-link-table', 'C14', _link_cases, _check_links,
+          'workbooks with 1..3 numbered external links, each a readable .xlsx, an absent .xlsx, an .xls or an .xlsm workbook (every arrangement with '
+          'distinct kinds): [n]S!A1 is the value of the n-th linked workbook or #REF!, intercepted by IFERROR, and the other cells keep their values',
+          parallel=True, weight=lambda c: 1),
     Stage('B2:every-subset-of-faults-injected-into-a-workbook', 'C14', _fault_cases, _check_faults,
           'all 256 subsets of 8 faults (absent sheet, absent sheet of a readable linked workbook, absent file, unreadable file, unknown '
           'function, _xlfn. function, undefined name) injected into a workbook with a linked workbook: loads and calculates, healthy cells keep their values, '
           'faulty cells hold an error that IFERROR / ISERROR intercept and arithmetic propagates', parallel=True, weight=lambda c: 1),
     Stage('B1:single-formulas-with-unresolved-items', 'C14', _formula_cases, _check_formula,
-          '19 formulas with unknown functions (incl. _xlfn.), undefined names and #REF! literals, bare and under IFERROR / ISERROR / IF',
+          '23 formulas with unknown functions (incl. _xlfn.), undefined names and #REF! literals, bare and under IFERROR / ISERROR / IF',
           parallel=False),
 ]
 
@@ -357,10 +436,10 @@ PROPERTIES = {
             'Partial. Proved: an unknown name maps to a callable that always raises NotImplementedError; the formula dispatcher lets '
             'exactly NotImplementedError / RangeValueError / InvalidRangeError pass; the cell wrapper turns a dispatcher error caused by '
             'NotImplementedError into #NAME? and propagates everything else unchanged. Tables: the default of the function table, the '
-            'two recovery paths of ExcelModel.complete (the real method run with add_book failing in nine ways). Bounded: single formulas with unresolved items; every subset of seven '
+            'two recovery paths of ExcelModel.complete (the real method run with add_book failing in nine ways). Bounded: single formulas with unresolved items; every subset of eight '
             'faults (absent sheet, absent sheet of a linked workbook, absent file, unreadable file, unknown function, _xlfn. function, undefined name) injected '
             'into one workbook: it loads and calculates, healthy cells keep their fault-free values, faulty cells hold interceptable errors.'),
         assumptions=['schedula wraps an exception of a node function into DispatcherError(ex=...) when raises(ex) is true (assumed)'],
-        not_proved=['locality across the workbook (every unaffected cell keeps its value): whole-model - bounded stage B2 only (one workbook shape, 128 fault subsets)'],
+        not_proved=['locality across the workbook (every unaffected cell keeps its value): whole-model - bounded stage B2 only (one workbook shape, 256 fault subsets)'],
     ),
 }
